@@ -67,6 +67,9 @@ func monitorCase(c *Ctx, cs *caseT, obs [][]actT) bool {
 		if cs.Hist != nil {
 			desc += fmt.Sprintf(" [segment %d of a history: the writer was constructed with other filter levels and FilteredLevelWriter.Level was assigned afterwards; cfg shows the levels in force, history the construction and the assignments]", cs.Hist.Seg)
 		}
+		if cs.Der != nil {
+			desc += fmt.Sprintf(" [step %d of a writer-derivation history: the writer is the result of MultiLevelWriter calls that took earlier MultiLevelWriter results as arguments; cfg shows the destinations it was built from, flattened, derivation the constructions and the history]", cs.Der.Step)
+		}
 		c.Violate(Violation{Key: key, Monitor: mon, Desc: desc, Case: caseJSON(cs, obs),
 			Observed: map[string]interface{}{"event": k, "trace": obs[k]}, Expected: exp})
 	}
